@@ -41,7 +41,7 @@ Free(s) == FreeOf(s, reading)
 \* processor is parked on somebody's full ring is not even looked at
 \* will: what this step means for the will of connection c: "due" it ended without DISCONNECT (the will is published once
 \* the teardown is complete), "never" it ended with DISCONNECT (its will is never published), "-" nothing
-WillOf(a) == IF WillKind = "none" THEN "-" ELSE IF a \in {"cut", "bad", "over", "edge"} THEN "due" ELSE IF a = "disconnect" THEN "never" ELSE "-"
+WillOf(a) == IF WillKind = "none" THEN "-" ELSE IF a \in {"cut", "bad", "over", "edge", "ping-halfclose"} THEN "due" ELSE IF a = "disconnect" THEN "never" ELSE "-"
 Log(a, c, gone) == /\ steps' = steps + 1
                    /\ hist' = Append(hist, [a |-> a, c |-> c, gone |-> (gone /\ Free(st)), free |-> FreeOf(st', reading'), cross |-> Cross, selfsub |-> SelfSub,
                                              wk |-> WillKind, will |-> WillOf(a)])
@@ -56,9 +56,17 @@ StopReading(c) == /\ c \in {"P", "S"} /\ st[c] = "up" /\ reading[c] /\ ~closedSr
 \* ("over": far beyond what a ring takes; "edge": one fixed header beyond it - remaining length = ring minus a read block -
 \*  of which all but the last two bytes arrive, then the client cuts the connection: a broker that takes such a packet and
 \*  waits for the rest with a ring too full to read on does not notice the end of the connection.  Whether the broker
-\*  refuses the packet is its choice; the connection ends like a cut one)
+\*  refuses the packet is its choice; the connection ends like a cut one;
+\*  "ping-halfclose": the client sends a PINGREQ and shuts down its sending direction only - the broker reads the end of
+\*  the stream while the client, reading or not, keeps the other direction open: with the client's ring full and its
+\*  processor busy with the PINGREQ's answer nothing but the end of the incoming stream tells the broker that it is over)
 End(c, how) == /\ c \in {"P", "S"} /\ st[c] = "up" /\ ~closedSrv
                /\ (how \in {"disconnect", "bad", "over", "edge"} => reading[c])
+               \* a half-closed client that does not read is itself a still-open connection that has stopped reading: when it
+               \* is subscribed to its own topic, the deliveries it holds up are its own (C16's proviso is not met: its
+               \* processor is parked on its own ring, its receiver on the full incoming ring, outside any read - the
+               \* situation of the known finding stalled-receiver of C19)
+               /\ (how = "ping-halfclose" /\ ~reading[c] => ~(SelfSub /\ c = "P"))
                /\ st' = [st EXCEPT ![c] = "gone"]
                /\ UNCHANGED <<reading, pending, closedSrv>> /\ Log(how, c, how \in {"bad", "over", "disconnect"})
 \* the attacker: garbage before CONNECT, or a valid CONNECT followed by garbage, each optionally cut short
@@ -93,7 +101,7 @@ AttackKinds == {"pre-garbage", "pre-truncated-connect", "pre-cut-in-header", "pr
                 "post-second-connect", "post-zero-length-topic"}
 Next == steps < MaxSteps /\
         \/ \E c \in {"P", "S"} : Burst(c) \/ StopReading(c)
-        \/ \E c \in {"P", "S"}, how \in {"cut", "disconnect", "bad", "over", "edge"} : End(c, how)
+        \/ \E c \in {"P", "S"}, how \in {"cut", "disconnect", "bad", "over", "edge", "ping-halfclose"} : End(c, how)
         \/ \E how \in {"bad", "disconnect"} : Pipeline("P", how)
         \/ \E c \in {"P", "S"} : PipelineSub(c)
         \/ \E c \in {"P", "S"} : Resume(c)
